@@ -79,7 +79,7 @@ def main() -> int:
     patch = wt_p / f"patch{n}.diff"
     demo = wt_p / f"demo{n}.py"
     assert patch.exists() and demo.exists(), "patch/demo missing"
-    scratch = Path("/tmp/seedval")
+    scratch = Path(f"/tmp/seedval-{sid}")  # one scratch worktree per seed: evaluations can run side by side
     if scratch.exists():
         sh(f"git -C /repo worktree remove --force {scratch}")
         shutil.rmtree(scratch, ignore_errors=True)
